@@ -14,7 +14,7 @@ use mahf::problems::{Evaluate, ObjectiveFunction, Parallel, Sequential};
 use mahf::state::common::{BestIndividual, Evaluations, Populations};
 use mahf::state::StateReq;
 use mahf::verif::{Step, StepEvent, StepObserver};
-use mahf::{Configuration, ExecResult, Individual, Problem, SingleObjective, State, StateRegistry};
+use mahf::{Component, Configuration, ExecResult, Individual, Problem, SingleObjective, State, StateRegistry};
 use serde::Serialize;
 use std::fmt::Debug;
 use std::sync::{Arc, Mutex};
@@ -125,6 +125,7 @@ struct Snap {
     evals: Option<u32>,
     pop: Option<usize>,
     best: Option<(String, f64)>,
+    archive: Option<Vec<f64>>,
 }
 
 #[derive(Default)]
@@ -149,7 +150,8 @@ impl ObsData {
 fn snap<P: HProblem>(problem: &P, st: &State<P>) -> Snap {
     let pop = st.try_borrow::<Populations<P>>().ok().and_then(|p| p.get_current().map(|c| c.len()));
     let best = st.try_borrow::<BestIndividual<P>>().ok().and_then(|b| b.as_ref().map(|i| (P::key(i.solution()), i.objective().value())));
-    Snap { calls: problem.instr().calls(), evals: st.try_get_value::<Evaluations>().ok(), pop, best }
+    let archive = st.try_borrow::<ElitistArchive<P>>().ok().map(|a| a.elitists().iter().filter_map(|i| i.get_objective().map(|o| o.value())).collect());
+    Snap { calls: problem.instr().calls(), evals: st.try_get_value::<Evaluations>().ok(), pop, best, archive }
 }
 
 const CONTAINERS: [&str; 4] = ["<seq>", "Loop", "Branch", "Scope"];
@@ -290,6 +292,26 @@ where
                         d.viol(format!("C06 template={} step={} calls-without-counter", tmpl, name), format!("{} objective calls while no evaluation counter is visible", dc));
                     }
                 }
+                if flags.c07 && name == "ElitistArchiveUpdate" {
+                    // the archive after the update holds the best of (archive before + current population)
+                    if let (Some(prev), Some(now)) = (&before.archive, &after.archive) {
+                        let mut pool: Vec<f64> = prev.clone();
+                        if let Ok(pops) = st.try_borrow::<Populations<P>>() {
+                            if let Some(cur) = pops.get_current() {
+                                pool.extend(cur.iter().filter_map(|i| i.get_objective().map(|o| o.value())));
+                            }
+                        }
+                        pool.sort_by(|a, b| a.partial_cmp(b).unwrap_or(std::cmp::Ordering::Equal));
+                        let mut got = now.clone();
+                        got.sort_by(|a, b| a.partial_cmp(b).unwrap_or(std::cmp::Ordering::Equal));
+                        if got.len() < prev.len() || got.len() > pool.len() || got[..] != pool[..got.len()] {
+                            d.viol(
+                                format!("C07 template={} step=ElitistArchiveUpdate not-the-best-shown", tmpl),
+                                format!("archive before {:?}, archive after {:?}; the best {} of archive-before plus the current population are {:?}", prev, now, got.len(), &pool[..got.len().min(pool.len())]),
+                            );
+                        }
+                    }
+                }
                 if flags.c07 && name == "BestIndividualUpdate" {
                     if let Ok(pops) = st.try_borrow::<Populations<P>>() {
                         if let Some(cur) = pops.get_current() {
@@ -399,6 +421,34 @@ where
         if let Some(e) = err {
             self.errors.lock().unwrap().push(e);
         }
+    }
+}
+
+/// One pool per size for the whole process (creating a pool per run costs more than the run).
+pub fn shared_pool(k: usize) -> Arc<rayon::ThreadPool> {
+    static POOLS: Mutex<Vec<(usize, Arc<rayon::ThreadPool>)>> = Mutex::new(Vec::new());
+    let mut g = POOLS.lock().unwrap();
+    if let Some(p) = g.iter().find(|p| p.0 == k) {
+        return p.1.clone();
+    }
+    let p = Arc::new(rayon::ThreadPoolBuilder::new().num_threads(k).build().unwrap());
+    g.push((k, p.clone()));
+    p
+}
+
+/// mahf's `Parallel` evaluator run inside a dedicated pool; only the evaluation step moves to the pool, the
+/// run itself (and with it the scripted generator's thread-local tape) stays on the calling thread.
+pub struct PoolEval<P: HProblem> {
+    pub pool: Arc<rayon::ThreadPool>,
+    pub _p: std::marker::PhantomData<fn() -> P>,
+}
+impl<P: HProblem + Sync> Evaluate for PoolEval<P>
+where
+    Parallel<P>: Evaluate<Problem = P>,
+{
+    type Problem = P;
+    fn evaluate(&mut self, problem: &P, state: &mut State<P>, individuals: &mut [Individual<P>]) {
+        self.pool.install(|| Parallel::<P>::new().evaluate(problem, state, individuals));
     }
 }
 
@@ -533,7 +583,11 @@ where
                 };
                 match ev {
                     EvKind::Sequential => st.insert_evaluator(Sequential::<P>::new()),
-                    EvKind::Parallel(_) => st.insert_evaluator(Parallel::<P>::new()),
+                    EvKind::Parallel(k) => match opts.rng {
+                        // the scripted generator lives on this thread: only the evaluation moves to a pool
+                        RngKind::Scripted => st.insert_evaluator(PoolEval::<P> { pool: shared_pool(*k), _p: std::marker::PhantomData }),
+                        RngKind::Real(_) => st.insert_evaluator(Parallel::<P>::new()),
+                    },
                     EvKind::Gated(pool, threads, errors) => st.insert_evaluator(GatedEval::<P> { pool: pool.clone(), threads: *threads, gate: gate.clone(), errors: errors.clone(), _p: std::marker::PhantomData }),
                 }
                 st.insert(obs);
@@ -545,10 +599,13 @@ where
         };
         let r = match ev {
             EvKind::Sequential | EvKind::Gated(..) => catch(run),
-            EvKind::Parallel(k) => {
-                let pool = rayon::ThreadPoolBuilder::new().num_threads(*k).build().unwrap();
-                pool.install(|| catch(run))
-            }
+            EvKind::Parallel(k) => match opts.rng {
+                RngKind::Scripted => catch(run),
+                RngKind::Real(_) => {
+                    let pool = rayon::ThreadPoolBuilder::new().num_threads(*k).build().unwrap();
+                    pool.install(|| catch(run))
+                }
+            },
         };
         let d = std::mem::take(&mut *data.lock().unwrap());
         out.violations = d.violations;
@@ -725,10 +782,17 @@ pub fn all_specs(iters: u32, thorough: bool) -> Vec<Box<dyn AnySpec>> {
             spec!(v, "real_cro", format!("{} pop={} mole_coll={} alpha={} beta={} iterations x{}", k, pop, mc, al, be, mult), real_problem(kind), iters * mult, rule, move |c| cro::real_cro(cro::RealProblemParameters { initial_population_size: pop, mole_coll: mc, kinetic_energy_lr: lr, alpha: al, beta: be, initial_kinetic_energy: ke, buffer: buf, on_wall_deviation: 0.2, decomposition_deviation: 0.3 }, c));
         }
     }
+    generic_specs(&mut v, iters, thorough);
     for (pop, tour, rm, pc, pm) in [(4u32, 2u32, 0.25, 0.8, 0.5), (2, 2, 1.0, 0.0, 1.0), (3, 1, 0.5, 1.0, 0.0)] {
         spec!(v, "binary_ga", format!("pop={} tour={} rm={} pc={} pm={}", pop, tour, rm, pc, pm), bin_problem, iters, exact(pop as usize), move |c| ga::binary_ga(ga::BinaryProblemParameters { population_size: pop, tournament_size: tour, rm, pc, pm }, c));
     }
     let tsps: Vec<bool> = if thorough { vec![false, true] } else { vec![false] };
+    // a second instance with the name and size of the first one but other distances
+    for (ants, a, b, evap) in [(2usize, 1.0, 2.0, 0.1)] {
+        let rule = move || -> (Box<dyn Fn(usize, usize) -> bool + Send + Sync>, String) { (Box::new(move |t, n| if t == 0 { n == 0 } else { n == ants + 1 }), format!("0 before the first pass, then {}", ants + 1)) };
+        spec!(v, "ant_system", format!("4-cities-b ants={} alpha={} beta={} evaporation={}", ants, a, b, evap), || TspP::line(&[5.0, 0.125, 3.0], Instr::new()), iters, rule(), move |c| aco::ant_system(aco::ASParameters::verif_new(ants, a, b, 1.0, evap, 1.0), c));
+        spec!(v, "max_min_ant_system", format!("4-cities-b ants={} alpha={} beta={} evaporation={} bounds=0.5..2", ants, a, b, evap), || TspP::line(&[5.0, 0.125, 3.0], Instr::new()), iters, rule(), move |c| aco::max_min_ant_system(aco::MMASParameters::verif_new(ants, a, b, 1.0, evap, 2.0, 0.5), c));
+    }
     for unequal in tsps {
         let k = if unequal { "5-cities-unequal" } else { "4-cities" };
         let ncity: u32 = if unequal { 5 } else { 4 };
@@ -755,4 +819,66 @@ pub fn all_specs(iters: u32, thorough: bool) -> Vec<Box<dyn AnySpec>> {
         }
     }
     v
+}
+
+
+/// The generic templates `ga::ga`, `es::es`, `de::de` assembled with components none of the example
+/// constructors uses (other selections, single-child crossovers, odd population sizes, elitist archive,
+/// growing and randomly truncated populations, permutation operators).
+fn generic_specs(v: &mut Vec<Box<dyn AnySpec>>, iters: u32, thorough: bool) {
+    use mahf::components::{archive, boundary, initialization, mutation, recombination, replacement, selection, utils};
+    let atleast = |n: usize| -> (Box<dyn Fn(usize, usize) -> bool + Send + Sync>, String) { (Box::new(move |_, k| k >= n), format!(">= {}", n)) };
+    let kinds: Vec<FKind> = if thorough { vec![FKind::Shifted, FKind::Linear] } else { vec![FKind::Shifted] };
+    for kind in kinds {
+        let k = format!("{:?}", kind);
+        let real = |pop: u32, body: Box<dyn Component<RealP>>| -> ExecResult<Configuration<RealP>> { Ok(Configuration::builder().do_(initialization::RandomSpread::new(pop)).evaluate().update_best_individual().do_(body).build()) };
+        spec!(v, "ga(generic)", format!("{} SUS(4) arithmetic-single(0.7) uniform-mutation toroidal archive(2) mu+lambda(4)", k), real_problem(kind), iters, exact(4), move |c| {
+            real(4, ga::ga::<RealP, Global>(ga::Parameters { selection: selection::StochasticUniversalSampling::new(4, 0.1), crossover: recombination::ArithmeticCrossover::new_insert_single(0.7), pm: 0.5, mutation: mutation::UniformMutation::new(0.5, 0.5), constraints: boundary::Toroidal::new(), archive: Some(archive::ElitistArchiveUpdate::new(2)), replacement: replacement::MuPlusLambda::new(4) }, c))
+        });
+        spec!(v, "ga(generic)", format!("{} roulette(3) 1-point-both(1) partial-random-spread mirror random-replacement(3)", k), real_problem(kind), iters, exact(3), move |c| {
+            real(3, ga::ga::<RealP, Global>(ga::Parameters { selection: selection::RouletteWheel::new(3, 0.5), crossover: recombination::NPointCrossover::new_insert_both(1, 1.0), pm: 1.0, mutation: mutation::PartialRandomSpread::new(0.5), constraints: boundary::Mirror::new(), archive: None, replacement: replacement::RandomReplacement::new(3) }, c))
+        });
+        spec!(v, "ga(generic)", format!("{} linear-rank(5) uniform-single(0.5) normal-mutation saturation archive(1) merge", k), real_problem(kind), iters, atleast(5), move |c| {
+            real(5, ga::ga::<RealP, Global>(ga::Parameters { selection: selection::LinearRank::new(5), crossover: recombination::UniformCrossover::new_insert_single(0.5), pm: 0.3, mutation: mutation::NormalMutation::new(0.2, 1.0), constraints: boundary::Saturation::new(), archive: Some(archive::ElitistArchiveUpdate::new(1)), replacement: replacement::Merge::new() }, c))
+        });
+        spec!(v, "ga(generic)", format!("{} exponential-rank(4) arithmetic-both(0.5) no-mutation normal-correction generational(4)", k), real_problem(kind), iters, exact(4), move |c| {
+            real(4, ga::ga::<RealP, Global>(ga::Parameters { selection: selection::ExponentialRank::new(4, 0.5)?, crossover: recombination::ArithmeticCrossover::new_insert_both(0.5), pm: 0.0, mutation: mutation::NormalMutation::new(0.2, 1.0), constraints: boundary::CompleteOneTailedNormalCorrection::new(), archive: None, replacement: replacement::Generational::new(4) }, c))
+        });
+        spec!(v, "es(generic)", format!("{} all normal-mutation saturation keep-better-at-index", k), real_problem(kind), iters, exact(4), move |c| {
+            real(4, es::es::<RealP, Global>(es::Parameters { selection: selection::All::new(), mutation: mutation::NormalMutation::new(0.3, 0.5), constraints: boundary::Saturation::new(), archive: None, replacement: replacement::KeepBetterAtIndex::new() }, c))
+        });
+        spec!(v, "es(generic)", format!("{} fully-random(6) uniform-mutation toroidal archive(3) mu+lambda(2)", k), real_problem(kind), iters, exact(2), move |c| {
+            real(2, es::es::<RealP, Global>(es::Parameters { selection: selection::FullyRandom::new(6), mutation: mutation::UniformMutation::new(0.4, 1.0), constraints: boundary::Toroidal::new(), archive: Some(archive::ElitistArchiveUpdate::new(3)), replacement: replacement::MuPlusLambda::new(2) }, c))
+        });
+        spec!(v, "es(generic)", format!("{} random-without-repetition(2) normal-mutation mirror discard-offspring", k), real_problem(kind), iters, exact(3), move |c| {
+            real(3, es::es::<RealP, Global>(es::Parameters { selection: selection::RandomWithoutRepetition::new(2), mutation: mutation::NormalMutation::new(0.3, 1.0), constraints: boundary::Mirror::new(), archive: None, replacement: replacement::DiscardOffspring::new() }, c))
+        });
+        spec!(v, "de(generic)", format!("{} rand/1/exp", k), real_problem(kind), iters, exact(4), move |c| {
+            real(4, de::de::<RealP, Global>(de::Parameters { selection: selection::de::DERand::new(1)?, mutation: mutation::de::DEMutation::new(1, 0.7)?, crossover: recombination::de::DEExponentialCrossover::new(0.6), constraints: boundary::Mirror::new(), replacement: replacement::KeepBetterAtIndex::new() }, c))
+        });
+        spec!(v, "de(generic)", format!("{} current-to-best/1/bin", k), real_problem(kind), iters, exact(5), move |c| {
+            real(5, de::de::<RealP, Global>(de::Parameters { selection: selection::de::DECurrentToBest::new(1)?, mutation: mutation::de::DEMutation::new(1, 0.5)?, crossover: recombination::de::DEBinomialCrossover::new(0.3), constraints: boundary::Toroidal::new(), replacement: replacement::KeepBetterAtIndex::new() }, c))
+        });
+    }
+    let bin = |pop: u32, body: Box<dyn Component<BinP>>| -> ExecResult<Configuration<BinP>> { Ok(Configuration::builder().do_(initialization::RandomBitstring::new(pop, 0.3)).evaluate().update_best_individual().do_(body).build()) };
+    spec!(v, "ga(generic)", "binary tournament(3,3) 1-point-single(0.9) partial-random-bitstring archive(2) mu+lambda(3)", bin_problem, iters, exact(3), move |c| {
+        bin(3, ga::ga::<BinP, Global>(ga::Parameters { selection: selection::Tournament::new(3, 3), crossover: recombination::NPointCrossover::new_insert_single(1, 0.9), pm: 0.5, mutation: mutation::PartialRandomBitstring::new(0.5, 0.5), constraints: utils::Noop::new(), archive: Some(archive::ElitistArchiveUpdate::new(2)), replacement: replacement::MuPlusLambda::new(3) }, c))
+    });
+    let perm = |pop: u32, body: Box<dyn Component<TspP>>| -> ExecResult<Configuration<TspP>> { Ok(Configuration::builder().do_(initialization::RandomPermutation::new(pop)).evaluate().update_best_individual().do_(body).build()) };
+    spec!(v, "ga(generic)", "4-cities tournament(4,2) cycle-both(0.8) swap(2) mu+lambda(4)", move || tsp_problem(false), iters, exact(4), move |c| {
+        perm(4, ga::ga::<TspP, Global>(ga::Parameters { selection: selection::Tournament::new(4, 2), crossover: recombination::CycleCrossover::new_insert_both(0.8), pm: 0.5, mutation: mutation::SwapMutation::new(2)?, constraints: utils::Noop::new(), archive: None, replacement: replacement::MuPlusLambda::new(4) }, c))
+    });
+    spec!(v, "ga(generic)", "4-cities linear-rank(3) cycle-single(1) scramble archive(1) generational(3)", move || tsp_problem(false), iters, (Box::new(|_, n| (1..=3).contains(&n)), "1..=3".to_string()), move |c| {
+        perm(3, ga::ga::<TspP, Global>(ga::Parameters { selection: selection::LinearRank::new(3), crossover: recombination::CycleCrossover::new_insert_single(1.0), pm: 1.0, mutation: mutation::ScrambleMutation::new(0.5), constraints: utils::Noop::new(), archive: Some(archive::ElitistArchiveUpdate::new(1)), replacement: replacement::Generational::new(3) }, c))
+    });
+    for (name, which) in [("inversion", 0u8), ("insertion", 1), ("translocation", 2)] {
+        spec!(v, "es(generic)", format!("4-cities clone-single(3) {} mu+lambda(1)", name), move || tsp_problem(false), iters, exact(1), move |c| {
+            let m: Box<dyn Component<TspP>> = match which {
+                0 => mutation::InversionMutation::new::<TspP, usize>(),
+                1 => mutation::common::InsertionMutation::new(),
+                _ => mutation::common::TranslocationMutation::new(),
+            };
+            perm(1, es::es::<TspP, Global>(es::Parameters { selection: selection::CloneSingle::new(3), mutation: m, constraints: utils::Noop::new(), archive: None, replacement: replacement::MuPlusLambda::new(1) }, c))
+        });
+    }
 }
